@@ -16,6 +16,9 @@ func init() {
 				r = append(r, Oblig{Harness: "vh_C08_call", Unroll: 8, Globals: map[string]int{"vhVariadic": v}})
 			}
 			for form := 0; form <= 1; form++ {
+				r = append(r, Oblig{Harness: "vh_C08_go", Unroll: 8, Globals: map[string]int{"vhGoForm": form}})
+			}
+			for form := 0; form <= 1; form++ {
 				r = append(r, Oblig{Harness: "vh_C08_callbin", Unroll: 8, Globals: map[string]int{"vhBinForm": form}})
 			}
 			return r
